@@ -74,12 +74,15 @@ def current_spec(sc, base_spec):
     return sp
 
 
-OPS = ["set_state_full", "set_state_velocity_only", "set_state_pose", "set_state_translate", "set_controls", "add_aircraft", "remove_aircraft", "solve_then_set_state", "solve_forces", "distributions_after_set"]
+OPS = ["set_state_full", "set_state_velocity_only", "set_state_pose", "set_state_translate", "set_controls", "add_aircraft", "remove_aircraft", "solve_then_set_state", "solve_forces", "distributions_after_set",
+       "two_set_state_translate", "two_set_state_other"]
+TWO = ("remove_aircraft", "two_set_state_translate", "two_set_state_other")
 
 
 def run_op(op, presolved):
     w = AN.new_world()
-    two = op == "remove_aircraft"
+    two = op in TWO
+
     base = spec(True, two=two)
     lab = RM.Lab(base, symbolic=True)
     sc = lab.fresh()
@@ -95,6 +98,11 @@ def run_op(op, presolved):
             sc.set_aircraft_state(st, aircraft=NAME)
         elif op == "set_state_pose":
             sc.set_aircraft_state(new_state(True, kind="pose"), aircraft=NAME)
+        elif op == "two_set_state_translate":
+            b = base["aircraft"][NAME]["state"]
+            sc.set_aircraft_state({"position": [sym("npx"), sym("npy"), sym("npz")], "velocity": b["velocity"], "orientation": b["orientation"], "angular_rates": b["angular_rates"]}, aircraft=NAME)
+        elif op == "two_set_state_other":
+            sc.set_aircraft_state({"position": [sym("npx"), sym("npy"), sym("npz")], "velocity": [90.0, 0.0, 5.0]}, aircraft="other")
         elif op == "set_state_translate":
             b = base["aircraft"][NAME]["state"]
             sc.set_aircraft_state({"position": [sym("npx"), sym("npy"), sym("npz")], "velocity": b["velocity"], "orientation": b["orientation"], "angular_rates": b["angular_rates"]}, aircraft=NAME)
@@ -116,6 +124,16 @@ def run_op(op, presolved):
     except Exception as e:
         exc = e
     post = w.scene_state(sc) if exc is None else None
+    ext = None
+    if exc is None and op.startswith("two_"):
+        # the spatial node vectors the kernel reads (incl. the cross-aircraft blocks) against the real full recomputation from the base state
+        names = ("_r_0", "_r_1", "_r_0_joint", "_r_1_joint", "_r_0_mag", "_r_1_mag", "_r_0_joint_mag", "_r_1_joint_mag", "_V_ji_const")
+        flat = lambda: [simp(zexpr(SR(x))) for nm in names for x in np.asarray(getattr(sc, nm), dtype=object).reshape(-1)]
+        a = flat()
+        solved_flag = sc._solved
+        sc._perform_geometry_and_atmos_calcs()
+        sc._solved = solved_flag
+        ext = (a, flat())
     fresh_state = None
     if exc is None:
         base2 = dict(base)
@@ -125,13 +143,17 @@ def run_op(op, presolved):
         fresh_state = w.scene_state(fresh)
     solved = bool(getattr(sc, "_solved", False))
     last = getattr(sc, "_solved_call", None)
-    return {"exc": exc, "post": post, "fresh": fresh_state, "solved": solved, "last_state": last["state"] if (solved and last is not None) else None,
+    return {"exc": exc, "post": post, "fresh": fresh_state, "solved": solved, "ext": ext, "last_state": last["state"] if (solved and last is not None) else None,
             "N": sc._N, "names": list(sc._airplanes.keys())}
 
 
 def harness(ck, op, presolved):
     label = "%s from a %s Inv-state" % (op, "solved" if presolved else "not-yet-solved")
     alt = [z3.Real(n) < 0 for n in ("pz", "npz", "opz")] + [z3.Real(n) > -90000 for n in ("pz", "npz", "opz")]
+    if op == "two_set_state_translate":
+        alt = alt + [z3.Real("npx") != z3.Real("px")]          # a real move; the no-op call is the single-aircraft op's path
+    if op == "two_set_state_other":
+        alt = alt + [z3.Real("npx") != z3.Real("opx")]
     res = explore(lambda: run_op(op, presolved), assumptions=alt, max_paths=12, setup=lambda c: (setup_ctx(c), c.declare_unit([sym("nq%d" % i) for i in range(4)])))
     ck.add_paths(res)
     for p in res:
@@ -165,6 +187,16 @@ def harness(ck, op, presolved):
             ch = diff[i:i + 12]
             g = z3.And(*[a == b for a, b in ch])
             ck.add([Obligation("%s derived state == recompute(base) [%d]" % (lab, i // 12), base_facts + cone_defs(p.ctx, [g]), g, meta={"finding": mk})])
+        if v.get("ext"):
+            a, b = v["ext"]
+            dd = [(x, y) for x, y in zip(a, b) if x.get_id() != y.get_id()]
+            if len(a) != len(b):
+                ck.add([Obligation(lab + " node-vector storage shape", [], z3.BoolVal(False), meta={"finding": mk})])
+            for i in range(0, len(dd), 12):
+                g = z3.And(*[x == y for x, y in dd[i:i + 12]])
+                ck.add([Obligation("%s spatial node vectors / constant influence == full recomputation [%d]" % (lab, i // 12), base_facts + cone_defs(p.ctx, [g]), g, meta={"finding": mk})])
+            if not dd:
+                ck.add([Obligation(lab + " spatial node vectors / constant influence == full recomputation (%d entries, syntactically equal)" % len(a), [], z3.BoolVal(True))])
         if v["solved"]:
             if v["last_state"] is None or len(v["last_state"]) != len(post):
                 g = z3.BoolVal(False)
@@ -190,7 +222,7 @@ def replay_step(inp):
     tried = []
     with AN.real_classes():
         for vv in cands:
-            base = spec(False, vv, two=(op == "remove_aircraft"))
+            base = spec(False, vv, two=(op in TWO))
             sc = RM.Lab(base, False).fresh()
             try:
                 if presolved or op in ("solve_then_set_state", "distributions_after_set"):
@@ -203,6 +235,11 @@ def replay_step(inp):
                     sc.set_aircraft_state(st, aircraft=NAME)
                 elif op == "set_state_pose":
                     sc.set_aircraft_state(new_state(False, vv, "pose"), aircraft=NAME)
+                elif op == "two_set_state_translate":
+                    st = dict(base["aircraft"][NAME]["state"]); st["position"] = [40.0, 15.0, -1005.0]
+                    sc.set_aircraft_state(st, aircraft=NAME)
+                elif op == "two_set_state_other":
+                    sc.set_aircraft_state({"position": [vv.get("npx", 110.0), vv.get("npy", -45.0), vv.get("npz", -1003.0)], "velocity": [90.0, 0.0, 5.0]}, aircraft="other")
                 elif op == "set_state_translate":
                     st = dict(base["aircraft"][NAME]["state"]); st["position"] = [vv.get("npx", 400.0), vv.get("npy", -150.0), vv.get("npz", -9000.0)]
                     sc.set_aircraft_state(st, aircraft=NAME)
@@ -279,6 +316,6 @@ def main(tier, seed, only=None):
                 continue
             tasks.append(("%s %s" % (op, presolved), lambda c, op=op, presolved=presolved: harness(c, op, presolved)))
     run_parallel(ck, tasks)
-    ck.bound(step=1, aircraft="<= 2 (g5 and g1)", arguments="all symbolic", max_paths=12)
+    ck.bound(step=1, aircraft="<= 2 (g5 and g1)", arguments="all symbolic (two-aircraft moves: a translation that changes x)", max_paths=12)
     ck.rung("rung 1: inductive step with LLsolve")
     return ck.finish()
